@@ -259,7 +259,7 @@ impl World {
       let text = self.text_for(id, &it.t, &it.sp);
       let with = if it.a != "none" { format!(" with {{ type: \"{}\" }}", it.a) } else { String::new() };
       if it.tt != "-" {
-        out.push_str(&format!("// @ts-types=\"{}\"\n", self.text_for(id, &it.tt, "0")));
+        out.push_str(&format!("// @deno-types=\"{}\"\n", self.text_for(id, &it.tt, "0")));
       }
       match it.f.as_str() {
         "static" => out.push_str(&format!("import {{ x{i} }} from \"{text}\"{with};\n")),
